@@ -420,10 +420,15 @@ def oracle_c06(op, design, out, ctx):
             return ctx.fail("accepts-walks", "decode rejected a walk whose check matches: %s: %s" %
                             (out.exc_type, out.exc_msg), exc=out.exc_type, mismatch=mismatch, cmode=cmode, **det)
         value = out.value
-        if not isinstance(value, numpy.ndarray) or value.ndim != 1 or len(value) != op["bit_length"]:
+        try:
+            entries = numpy.asarray(value).tolist()
+            ok = isinstance(value, (numpy.ndarray, list, tuple)) and numpy.asarray(value).ndim == 1
+        except Exception:
+            entries, ok = [], False
+        if not ok or len(entries) != op["bit_length"]:
             return ctx.fail("length", "decode returned %r, not a bit array of length %d" %
                             (getattr(value, "shape", type(value).__name__), op["bit_length"]), **det)
-        if not all(int(b) in (0, 1) for b in value.tolist()):
+        if not all(b in (0, 1) for b in entries):
             return ctx.fail("length", "decode returned non-bits", **det)
         if op["bit_length"] < len(read):
             st.inc("probes", "c06:accept-truncating")
@@ -708,6 +713,24 @@ def op_vtscan(op, world, ctx):
                      n_strand=len(strand), vt_length=n, empty=len(strand) == 0)
             return {"out": out.brief(), "res": None}
         originals[n] = out.value
+    if op.get("traffic"):
+        # other molecules' reads pass through the same process first: single-edit neighbours of this strand are
+        # repaired and decoded against *their own* checks (all legitimate calls; nothing is asserted on them)
+        import random as _random
+        trng = _random.Random(op.get("tseed", 0))
+        neighbours = [e for e in single_edit_neighbours(strand) if e[0] == "S"]
+        for e in trng.sample(neighbours, min(op["traffic"], len(neighbours))):
+            other = apply_one(strand, e)
+            for n in op["ns"]:
+                own = M.vt(other, n)
+                st.lib_calls += 2
+                SC.call(dsw.repair_dna, dict(dna_sequence=other, accessor=acc, start_index=op["start"],
+                                             observed_length=design.k, vt_check=own, has_indel=trng.random() < 0.5),
+                        jump_budget=repair_bounds(len(other), design.k, 1000)[1])
+                SC.call(dsw.decode, dict(dna_sequence=other, bit_length=op["bit_length"], accessor=acc,
+                                         start_index=op["start"], vt_check=own),
+                        jump_budget=decode_budget(len(other), op["bit_length"]))
+        st.inc("probes", "c07:cross-traffic")
     count = 0
     for e in single_edit_neighbours(strand):
         kind, p, nt = e
@@ -732,11 +755,12 @@ def op_vtscan(op, world, ctx):
             dec = SC.call(dsw.decode, dict(dna_sequence=corrupted, bit_length=op["bit_length"], accessor=acc,
                                            start_index=op["start"], vt_check=originals[n]),
                           jump_budget=decode_budget(len(corrupted), op["bit_length"]))
-            if dec.kind == "returned" or dec.exc_type != "ValueError":
+            if dec.kind != "raised":    # C07 asks for rejection; the exception type is C06's business
                 return _fail_rec(ctx, "decode-rejects-single-edit", "decode with the original %d-nt check %s a strand "
                                  "with a single %s of %s at %d" % (n, "accepted" if dec.kind == "returned" else
-                                                                   "raised %s on" % (dec.exc_type or dec.kind),
-                                                                   kind, nt, p), det)
+                                                                   "did not return on", kind, nt, p), det)
+            if dec.exc_type != "ValueError":
+                st.inc("probes", "c07:rejected-with-" + str(dec.exc_type))
             count += 1
             st.states.add("scan/n%d/%s/%s%s/%s" % (n, kind, nt, strand[p] if p < len(strand) else "$", det["pos_class"]))
     st.nonvacuous += count
